@@ -6,16 +6,6 @@ Import ListNotations.
 Local Open Scope N_scope.
 Ltac Zify.zify_post_hook ::= Z.div_mod_to_equations.
 
-(* walk s num c k : starting at s with num bytes left, the decoder reports c positive lengths
-   r1 .. rc, each at the position reached by the previous ones, then reports 0; k = r1 + .. + rc *)
-Inductive walk : list N -> N -> N -> N -> Prop :=
-| walk_stop s num v :
-    decode s num false = DRet 0 v -> walk s num 0 0
-| walk_step s num r v c k :
-    decode s num false = DRet r v -> 0 < r ->
-    walk (skipn (N.to_nat r) s) (num - r) c k ->
-    walk s num (c + 1) (k + r).
-
 Lemma walk_functional s num c k : walk s num c k ->
   forall c' k', walk s num c' k' -> c = c' /\ k = k'.
 Proof.
